@@ -1,5 +1,9 @@
 # C16 - DTLS survives loss/reorder/duplication and never accepts a record twice
 HARNESSES = [
+    dict(name="replay_window", src="replay_window.c", checks=[],
+         functions=["dtlsChkReplayWindow", "dtlsCompareEpoch"], sources=["matrixssl/dtls.c"],
+         assumptions=["replay_window: window invariant RI assumed in the pre-state and asserted in the post-state (inductive step); record epoch == expectedEpoch (the only situation in which the decoder consults the window); sequence numbers compared on their low 32 bits as the code does"],
+         cases=[dict(name="step", defs={})]),
     COMMON["dec12"]("epoch_gate", ["C16"], COMMON["dec12_cases"](None, 40, dtls_only=("dtls10", "dtls12n")) + COMMON["dec12_cases"](None, 56, tier="thorough")),
 ]
 PROPERTY = dict(level="model_checking", explanation="", bounds="", outside="", assumptions=[])
